@@ -159,7 +159,9 @@ func extractTableOpt(fn *ssa.Function, cut bool) (*dtable, error) {
 				rv := resolve(x.Results[0])
 				if _, isConst := rv.(*ssa.Const); !isConst {
 					if bt, ok := rv.Type().Underlying().(*types.Basic); ok && bt.Kind() == types.Bool {
+						canonPhiHook = func(ph *ssa.Phi) ssa.Value { return resolve(ph) }
 						a, _ := decomposeCond(rv)
+						canonPhiHook = nil
 						for _, outcome := range []bool{true, false} {
 							b := a
 							if !outcome {
@@ -182,7 +184,9 @@ func extractTableOpt(fn *ssa.Function, cut bool) (*dtable, error) {
 				if c, ok := rv.(*ssa.Const); ok {
 					row.results = append(row.results, "const:"+constKey(c))
 				} else {
+					canonPhiHook = func(ph *ssa.Phi) ssa.Value { return resolve(ph) }
 					row.results = append(row.results, "expr:"+canon(rv))
+					canonPhiHook = nil
 				}
 			}
 			t.rows = append(t.rows, row)
@@ -203,7 +207,9 @@ func extractTableOpt(fn *ssa.Function, cut bool) (*dtable, error) {
 					return walk(frame{b: f.b.Succs[i], pred: f.b, conds: f.conds, path: path}, depth+1)
 				}
 			}
+			canonPhiHook = func(ph *ssa.Phi) ssa.Value { return resolve(ph) }
 			a, _ := decomposeCond(cv)
+			canonPhiHook = nil
 			// contradiction pruning: subject already fixed to another constant on this path
 			for i, branchNeg := range []bool{false, true} {
 				b := a
